@@ -28,6 +28,127 @@ def dense_h(om, de, ph, U):
     return H
 
 
+def lindblad_family(rnd):
+    """C16: one EvolveDensityMatrix step against exp(dt * dense Lindblad generator) on vec(rho), and the physicality of
+    a run of steps (Hermitian, trace one, positive semidefinite). Phases include the corners where sin or cos vanish
+    (0, pi/2, pi, -pi/2, 2 pi) on all atoms or on some of them; the noise operators are arbitrary complex 2x2 matrices."""
+    import math
+    from emu_sv.time_evolution import EvolveDensityMatrix
+    I2 = torch.eye(2, dtype=torch.complex128)
+
+    def kron(ops):
+        out = torch.ones(1, 1, dtype=torch.complex128)
+        for o in ops:
+            out = torch.kron(out, o)
+        return out
+    corners = [0.0, math.pi / 2, math.pi, -math.pi / 2, 2 * math.pi, -math.pi]
+    for t in range(48):
+        n = rnd.randint(1, 3)
+        d = 2 ** n
+        om = torch.rand(n, dtype=torch.float64) * 5 + 0.2
+        de = torch.rand(n, dtype=torch.float64) * 4 - 2
+        mode = t % 4
+        if mode == 0:       # the same corner phase on every atom
+            ph = torch.full((n,), corners[(t // 4) % len(corners)], dtype=torch.float64)
+        elif mode == 1:     # corner phases, different per atom
+            ph = torch.tensor([rnd.choice(corners) for _ in range(n)], dtype=torch.float64)
+        elif mode == 2:     # generic
+            ph = torch.rand(n, dtype=torch.float64) * 6 - 3
+        else:               # one generic, the rest zero
+            ph = torch.zeros(n, dtype=torch.float64)
+            ph[rnd.randrange(n)] = rnd.uniform(-3, 3)
+        U = torch.rand(n, n, dtype=torch.float64) * 3
+        U = (U + U.T) / 2
+        U.fill_diagonal_(0)
+        nl = rnd.randint(1, 3)
+        Ls = [(torch.randn(2, 2, dtype=torch.complex128) * rnd.choice([0.2, 0.7])) for _ in range(nl)]
+        A = torch.randn(d, d, dtype=torch.complex128)
+        rho = A @ A.conj().T
+        rho = rho / rho.diagonal().sum()
+        dt = rnd.choice([0.01, 0.1, 0.4])
+        H = dense_h(om, de, ph, U)
+        Id = torch.eye(d, dtype=torch.complex128)
+        # column-stacking free form: vec_r(A rho B) = (A kron B^T) vec_r(rho) for row-major flattening
+        G = -1j * (torch.kron(H, Id) - torch.kron(Id, H.T.contiguous()))
+        for L in Ls:
+            for q in range(n):
+                Lq = kron([L if k == q else I2 for k in range(n)])
+                LdL = Lq.conj().T @ Lq
+                G = G + torch.kron(Lq, Lq.conj()) - 0.5 * (torch.kron(LdL, Id) + torch.kron(Id, LdL.T.contiguous()))
+        ref = (torch.linalg.matrix_exp(dt * G) @ rho.reshape(-1)).reshape(d, d)
+        out, _ = EvolveDensityMatrix.apply(dt, om.to(torch.complex128), de.to(torch.complex128), ph.to(torch.complex128),
+                                           U, rho.clone(), 1e-10, [l.clone() for l in Ls])
+        err = (out - ref).norm().item()
+        if not (err <= 1e-6):
+            print(f"REPRODUCED: Lindblad step n={n} dt={dt} phases={[round(x, 6) for x in ph.tolist()]} {nl} noise operator(s): "
+                  f"|EvolveDensityMatrix(rho) - exp(dt L) rho| = {err:.3g}")
+            return 1
+        # physicality over a run of steps from this state
+        cur = out
+        for k in range(4):
+            cur, _ = EvolveDensityMatrix.apply(dt, om.to(torch.complex128), de.to(torch.complex128),
+                                               ph.to(torch.complex128), U, cur, 1e-10, [l.clone() for l in Ls])
+        herm = (cur - cur.conj().T).norm().item()
+        tr = abs(cur.diagonal().sum().item() - 1.0)
+        ev = torch.linalg.eigvalsh((cur + cur.conj().T) / 2).min().item()
+        if herm > 1e-7 or tr > 1e-7 or ev < -1e-7:
+            print(f"REPRODUCED: Lindblad run n={n} dt={dt} phases={[round(x, 6) for x in ph.tolist()]}: after 5 steps "
+                  f"|rho - rho^dagger| = {herm:.3g}, |tr rho - 1| = {tr:.3g}, smallest eigenvalue {ev:.3g}")
+            return 1
+    # F33 (fixed in d112f14): the generator is the Lindbladian only on Hermitian matrices; an anti-Hermitian rounding
+    # residue is amplified by exp(dt * spread(sum L^dagger L)/2) per step unless each step returns a Hermitian matrix.
+    # Strong complex noise operators, many steps: the run must follow the product of dense exponentials.
+    g = torch.Generator().manual_seed(33)
+    n, d, dt, steps = 3, 8, 0.25, 16
+    om = torch.tensor([3.0, 4.0, 2.5], dtype=torch.float64)
+    de = torch.tensor([0.4, -1.0, 0.7], dtype=torch.float64)
+    ph = torch.tensor([0.3, 0.3, 0.3], dtype=torch.float64)
+    U = torch.tensor([[0.0, 1.1, 0.3], [1.1, 0.0, 0.8], [0.3, 0.8, 0.0]], dtype=torch.float64)
+    Ls = [torch.randn(2, 2, dtype=torch.complex128, generator=g) * 1.2 for _ in range(2)]
+    H = dense_h(om, de, ph, U)
+    Id = torch.eye(d, dtype=torch.complex128)
+    G = -1j * (torch.kron(H, Id) - torch.kron(Id, H.T.contiguous()))
+    for L in Ls:
+        for q in range(n):
+            Lq = kron([L if k == q else I2 for k in range(n)])
+            LdL = Lq.conj().T @ Lq
+            G = G + torch.kron(Lq, Lq.conj()) - 0.5 * (torch.kron(LdL, Id) + torch.kron(Id, LdL.T.contiguous()))
+    E = torch.linalg.matrix_exp(dt * G)
+    A = torch.randn(d, d, dtype=torch.complex128, generator=g)
+    rho = A @ A.conj().T
+    rho = rho / rho.diagonal().sum()
+    cur = rho.clone()
+    f34 = []
+    for k in range(steps):
+        one = (E @ cur.reshape(-1)).reshape(d, d)          # the exact step from the state the emulator is in
+        # F34 region (open known finding, krylov_exp): convergence declared at the first iteration through
+        # err2 = |expd[2,0]| * |A v_0| although |A v_0| << |A v_1| (the start vector is close to the kernel of the
+        # generator, e.g. a nearly stationary density matrix)
+        v0 = cur.reshape(-1) / cur.norm()
+        a0 = dt * (G @ v0)
+        w = a0 - torch.vdot(v0, a0) * v0
+        n0, n1 = a0.norm().item(), (dt * (G @ (w / w.norm()))).norm().item()
+        cur, _ = EvolveDensityMatrix.apply(dt, om.to(torch.complex128), de.to(torch.complex128), ph.to(torch.complex128),
+                                           U, cur, 1e-10, [l.clone() for l in Ls])
+        herm = (cur - cur.conj().T).norm().item()
+        err = (cur - one).norm().item()
+        tr = abs(cur.diagonal().sum().item() - 1.0)
+        if herm <= 1e-9 and tr <= 1e-7 and err > 1e-6 and n0 < 0.05 * n1 and n0 * n0 < 1e-8:
+            f34.append((k + 1, err, n0, n1))
+            continue
+        if not (herm <= 1e-9 and err <= 1e-6 and tr <= 1e-7):
+            print(f"REPRODUCED: Lindblad run, 3 atoms, two complex noise operators of norm {Ls[0].norm().item():.2f} and "
+                  f"{Ls[1].norm().item():.2f}, dt={dt}: after step {k + 1} |rho - rho^dagger| = {herm:.3g}, "
+                  f"|step - exp(dt L) rho| = {err:.3g}, |tr rho - 1| = {tr:.3g} (F33 if it grows from step to step)")
+            return 1
+    if f34:
+        k, err, n0, n1 = f34[0]
+        print(f"  KNOWN-FINDING-F34-INPUT-FAILS: nearly stationary density matrix (step {k} of the strong-noise run, "
+              f"krylov_tolerance 1e-10): |step - exp(dt L) rho| = {err:.3g} with |A v0| = {n0:.3g} << |A v1| = {n1:.3g}; "
+              f"{len(f34)} of {steps} steps")
+    return 0
+
+
 def ownership():
     """the evolving state must not share storage with the configured initial state: after a run the
     user's initial state is unchanged and a second run from the same backend gives the same results"""
@@ -89,6 +210,9 @@ def main():
         if (out - ref).norm() > 1e-6:
             print(f"REPRODUCED: n={n} dt={dt}: |evolve(psi) - exp(-i dt H) psi| = {(out - ref).norm().item():.3g}")
             return 1
+    rc = lindblad_family(rnd)
+    if rc:
+        return rc
     # a long run of steps whose parameters change very little from one step to the next (a slow detuning ramp),
     # same interaction-matrix object throughout: state kept between steps (a cached diagonal, a reused operator)
     # must not freeze any term -- the product of the steps against the product of dense exponentials
@@ -136,7 +260,8 @@ def main():
     if not ok:
         print(f"REPRODUCED: _evolve_step(3.0, 1) handed dt={a[0]}, omega={a[1].tolist()}, matrix time {times}, tol={a[6]}")
         return 1
-    print("NOT-REPRODUCED: 60 random single steps match exp(-i dt H) psi; _evolve_step wiring as specified")
+    print("NOT-REPRODUCED: 60 random single steps match exp(-i dt H) psi; 48 Lindblad steps (corner phases included) match "
+          "exp(dt L) rho and stay Hermitian, trace one, positive; _evolve_step wiring as specified")
     return 0
 
 
